@@ -96,6 +96,23 @@ fn cfgs() -> Vec<PairCfg> {
     c.client.name = "cert10k".into();
     c.cert_len = 10_000;
     v.push(c);
+    // a resumed session: the ticket remembers a server that allowed 500 ms of silence; the server the
+    // client reaches now allows 3 s (the client itself 5 s): 3 s is what counts
+    let mut c = cfg_by_name("default");
+    c.client.name = "resumed-idle".into();
+    c.client.idle_ms = Some(5000);
+    c.server.idle_ms = Some(3000);
+    static REMEMBERED: std::sync::OnceLock<Vec<u8>> = std::sync::OnceLock::new();
+    let params = REMEMBERED
+        .get_or_init(|| {
+            let mut old = cfg_by_name("default");
+            old.client.idle_ms = Some(5000);
+            old.server.idle_ms = Some(500);
+            crate::checks::c17::remembered(Instant::now(), &old)
+        })
+        .clone();
+    c.ticket = Some(crate::mtls::Ticket { server_params: params, secret: [7; 16] });
+    v.push(c);
     v
 }
 
@@ -351,7 +368,9 @@ fn run_case(base: Instant, c: &Case, dump: bool) -> Out {
                                 let idle = Duration::from_millis(idle as u64);
                                 if timed_out {
                                     let td = life.drained_at.unwrap_or(p.w.t);
-                                    if td + Duration::from_millis(1) < last_rx[node] + idle {
+                                    // (before the handshake completes the peer's timeout is not known yet;
+                                    // a resuming client goes by what it remembers)
+                                    if s.app.obs.connected && td + Duration::from_millis(1) < last_rx[node] + idle {
                                         v.push((format!("idle-too-early:{who}"), format!("{who} timed out at {td:?}, last packet received at {:?}, idle timeout {idle:?}", last_rx[node])));
                                     }
                                 } else if s.lost.is_empty() && p.w.t > last_rx[node] + 8 * idle + Duration::from_secs(20) {
